@@ -793,7 +793,9 @@ class ServiceMethodCompiler(ProtoContentBase):
         str
             Param name corresponding to py_input_message_type.
         """
-        return pythonize_field_name(self.py_input_message_type)
+        name = pythonize_field_name(self.py_input_message_type)
+        # the parameter follows `self` in the generated method signatures
+        return f"{name}_" if name == "self" else name
 
     @property
     def py_output_message_type(self) -> str:
